@@ -294,6 +294,19 @@ def run(ctx):
     ctx.touch(fi8)
     cont8 = fi8.calls(r'HashSet::<.*>::contains$|BTreeSet::<.*>::contains$')
     if not cont8:
+        # the scan as an iterator chain: the lookup sits in a closure handed to find_map / find / filter_map, which visits every
+        # frame until the closure answers Some(..) — there is no other way out of it
+        adapt8 = None
+        for cl8 in P.closures_of(fi8.path):
+            if cl8.calls(r'HashSet::<.*>::contains$|BTreeSet::<.*>::contains$'):
+                for s_ in [x for g_ in [fi8] + P.closures_of(fi8.path) for x in g_.calls(r'::(find_map|find|rfind|filter_map|position|rposition|any)$')]:
+                    for a_ in s_.args[1:]:
+                        o_ = s_.fn.origin(a_)
+                        if o_[0] == 'rv' and o_[1].get('ak') == 'closure' and o_[1].get('def') == cl8.path:
+                            adapt8 = s_
+        if adapt8 is not None:
+            ctx.ob('C09.8', fi8, 'inflight-scan-exhaustive', True, 'the scan is an iterator chain (%s with the ended-set lookup in its closure): it stops only at a job found or at the end of the window' % adapt8.name, line=adapt8.line)
+            return
         raise CheckError('C09.8: the in-flight scan no longer consults a set of ended job ids (anchor lost)')
     # the lookup may sit on a way OUT of the loop (an arm that always leaves): the loop is the one whose header dominates it
     loops8 = [(h, body) for h, body in fi8.loops().items() if any(c.bb in body or fi8.dom(h, c.bb) for c in cont8)]
